@@ -40,6 +40,9 @@ build() { # $1 = race|plain
 	local flags=()
 	if [ "$1" = race ]; then
 		( cd "$VERIF" && go build -o "$SCRATCH/bin/instrument" ./tools/instrument ) >"$SCRATCH/build.log" 2>&1 || { cat "$SCRATCH/build.log"; fatal "cannot build the instrumenter"; }
+		# generics in the generated helper need go >= 1.18; stay below 1.22 so that
+		# loop variable semantics of the code under test do not change
+		sed -i 's/^go 1\.[0-9]*$/go 1.18/' "$SCRATCH/ggql/go.mod"
 		"$SCRATCH/bin/instrument" "$SCRATCH/ggql/pkg/ggql" >"$SCRATCH/instrument.json" 2>"$SCRATCH/instrument.err" || { cat "$SCRATCH/instrument.err"; fatal "instrumentation of the scratch copy failed"; }
 		export VERIF_BUILD_INFO="$(cat "$SCRATCH/instrument.json")"
 		flags=(-race -tags verifsim)
